@@ -9,6 +9,6 @@ trap 'git -C /repo worktree remove --force "$W"' EXIT
 mkdir -p "$W/.demo"; cp "$DEMO" "$W/.demo/demo.py"
 run() { ( cd "$W" && PYTHONPATH="$W" /venv/bin/python -m pytest -q -p no:cacheprovider --timeout=900 2>&1 | tail -1; cd "$W/.demo" && PYTHONPATH="$W" /venv/bin/python -P demo.py >/dev/null 2>&1; echo "demo exit=$?" ); }
 echo "--- clean"; run
-git -C "$W" apply "$PATCH" || { echo "patch does not apply"; exit 3; }
+git -C "$W" apply "$PATCH" 2>/dev/null || git -C "$W" apply --3way "$PATCH" || { echo "patch does not apply"; exit 3; }
 echo "--- seeded"; run
 echo "--- check"; REPO="$W" /verif/check "$P" "$@" 2>&1 | grep -E "^# failed|VIOLATION|UNDECIDED|ENGINE|^pyvc" | cut -c1-260
